@@ -2,8 +2,8 @@ package main
 
 import (
 	"fmt"
-	"os"
 	"math/rand"
+	"os"
 	"time"
 
 	hg "github.com/mosaicnetworks/babble/src/hashgraph"
@@ -69,24 +69,24 @@ func chainCases(tier string, seed int64, quickCount, thoroughCount int, membersh
 func specFromCase(cs CaseSpec) ScheduleSpec {
 	r := cs.rng("spec")
 	sp := ScheduleSpec{
-		Steps:      int(cs.I("steps", 500)),
-		Shape:      cs.Str("shape", "uniform"),
-		SubmitProb: 0.25 + 0.3*r.Float64(),
-		BurstProb:  0.05,
-		TruncProb:  0.15 * r.Float64() * 2,
-		DropProb:   0.1 * r.Float64() * 2,
-		StaleProb:  0.03,
-		PullOnly:   0.1,
-		TxKinds:    6,
-		Joins:      int(cs.I("joins", 0)),
-		Leaves:     int(cs.I("leaves", 0)),
-		Refused:    int(cs.I("refused", 0)),
-		Simultaneous: cs.I("simultaneous", 0) == 1,
-		Rejoin:     cs.I("rejoin", 0) == 1,
+		Steps:           int(cs.I("steps", 500)),
+		Shape:           cs.Str("shape", "uniform"),
+		SubmitProb:      0.25 + 0.3*r.Float64(),
+		BurstProb:       0.05,
+		TruncProb:       0.15 * r.Float64() * 2,
+		DropProb:        0.1 * r.Float64() * 2,
+		StaleProb:       0.03,
+		PullOnly:        0.1,
+		TxKinds:         6,
+		Joins:           int(cs.I("joins", 0)),
+		Leaves:          int(cs.I("leaves", 0)),
+		Refused:         int(cs.I("refused", 0)),
+		Simultaneous:    cs.I("simultaneous", 0) == 1,
+		Rejoin:          cs.I("rejoin", 0) == 1,
 		FastSyncJoiners: cs.I("fsjoin", 0) == 1,
-		ResetInWindow: cs.I("resetinwindow", 0) == 1,
-		CallbackTxProb: float64(cs.I("cbtx", 0)) / 100.0,
-		KeepSilent: cs.I("keepsilent", 0) == 1,
+		ResetInWindow:   cs.I("resetinwindow", 0) == 1,
+		CallbackTxProb:  float64(cs.I("cbtx", 0)) / 100.0,
+		KeepSilent:      cs.I("keepsilent", 0) == 1,
 	}
 	sp.CloseLeaves = cs.I("closeleaves", 0) == 1
 	sp.FFResets = int(cs.I("ffresets", 0))
@@ -206,8 +206,8 @@ func runHistory(cs CaseSpec, mk func(nw *Network) []Monitor, after func(nw *Netw
 func init() {
 	register(&PropDef{
 		ID: "C01", Level: "exploration", Engine: "nodesim",
-		Rule: "two kinds of cases: (a) one seeded nodesim history (real Node objects, harness scheduler/network: shapes uniform/lagging/silent-minority/healing-partition/split-view, truncated+dropped+stale syncs, joins/leaves), non-trivial when >=20 events were created and >=3 blocks delivered; (b) one DAG (a fixed long-election shape with relabelled creators and fresh keys, or a split-view DAG found by a workload search for elections that last into a coin round) delivered to real Hashgraph instances in different arrival orders (random, one creator's events as late as possible, the ancestry of some event first), non-trivial when the reference produced >=3 blocks; distinct = distinct (seed,index,event count,last event hash)",
-		Assumptions: []string{"no equivocating creator is generated", "fast-forwarded nodes are judged by C13, not here", "one simulator step = one hold of the node's coreLock (single-threaded)"},
+		Rule:          "two kinds of cases: (a) one seeded nodesim history (real Node objects, harness scheduler/network: shapes uniform/lagging/silent-minority/healing-partition/split-view, truncated+dropped+stale syncs, joins/leaves), non-trivial when >=20 events were created and >=3 blocks delivered; (b) one DAG (a fixed long-election shape with relabelled creators and fresh keys, or a split-view DAG found by a workload search for elections that last into a coin round) delivered to real Hashgraph instances in different arrival orders (random, one creator's events as late as possible, the ancestry of some event first), non-trivial when the reference produced >=3 blocks; distinct = distinct (seed,index,event count,last event hash)",
+		Assumptions:   []string{"no equivocating creator is generated", "fast-forwarded nodes are judged by C13, not here", "one simulator step = one hold of the node's coreLock (single-threaded)"},
 		MinNontrivial: 10,
 		Cases: func(tier string, seed int64) []CaseSpec {
 			cs := chainCases(tier, seed, 48, 640, true)
@@ -241,14 +241,18 @@ func init() {
 			if cs.Kind == "orders" {
 				return runC03(cs)
 			}
-			return runHistory(cs, func(nw *Network) []Monitor { fm := NewMonFame(); fm.Strict = os.Getenv("VERIF_FAME_STRICT") == "1"; return []Monitor{NewMonAgreement(), NewMonReach(), fm, NewMonLateSets()} }, nil)
+			return runHistory(cs, func(nw *Network) []Monitor {
+				fm := NewMonFame()
+				fm.Strict = os.Getenv("VERIF_FAME_STRICT") == "1"
+				return []Monitor{NewMonAgreement(), NewMonReach(), fm, NewMonLateSets()}
+			}, nil)
 		},
 		PerCaseTimeout: 15 * time.Minute,
 	})
 	register(&PropDef{
 		ID: "C02", Level: "exploration", Engine: "nodesim",
-		Rule: "one case = one seeded nodesim history; after every step the commit-callback sequence of every node is checked and delivered blocks are re-read from the store (last 12 every step, all every 40 steps); non-trivial: >=20 events and >=3 blocks; distinct as C01",
-		Assumptions: []string{"blocks evicted from an in-memory store are not judged (documented limitation)", "single-threaded simulator: reads happen between lock holds"},
+		Rule:          "one case = one seeded nodesim history; after every step the commit-callback sequence of every node is checked and delivered blocks are re-read from the store (last 12 every step, all every 40 steps); non-trivial: >=20 events and >=3 blocks; distinct as C01",
+		Assumptions:   []string{"blocks evicted from an in-memory store are not judged (documented limitation)", "single-threaded simulator: reads happen between lock holds"},
 		MinNontrivial: 10,
 		Cases: func(tier string, seed int64) []CaseSpec {
 			cs := chainCases(tier, seed+7919, 48, 640, true)
@@ -290,10 +294,10 @@ func init() {
 func init() {
 	register(&PropDef{
 		ID: "C04", Level: "exploration", Engine: "nodesim",
-		Rule: "one case = one seeded nodesim history with unique-id transactions; every delivered block of every node is joined with the harness's own DAG record (parents, payload): ancestors' payload first, events whole/once/contiguous, block = concatenation of its frame; non-trivial: >=20 events and >=3 blocks",
-		Assumptions: []string{"the harness's DAG record is built from what stores expose after every step", "nodes reset by fast-sync are not required to deliver what was committed before their anchor"},
+		Rule:          "one case = one seeded nodesim history with unique-id transactions; every delivered block of every node is joined with the harness's own DAG record (parents, payload): ancestors' payload first, events whole/once/contiguous, block = concatenation of its frame; non-trivial: >=20 events and >=3 blocks",
+		Assumptions:   []string{"the harness's DAG record is built from what stores expose after every step", "nodes reset by fast-sync are not required to deliver what was committed before their anchor"},
 		MinNontrivial: 10,
-		Cases: func(tier string, seed int64) []CaseSpec { return chainCases(tier, seed+104729, 48, 640, true) },
+		Cases:         func(tier string, seed int64) []CaseSpec { return chainCases(tier, seed+104729, 48, 640, true) },
 		Run: func(cs CaseSpec) *CaseResult {
 			return runHistory(cs, func(nw *Network) []Monitor { return []Monitor{NewMonCausality()} }, nil)
 		},
@@ -301,8 +305,8 @@ func init() {
 	})
 	register(&PropDef{
 		ID: "C05", Level: "exploration", Engine: "nodesim",
-		Rule: "one case = one seeded nodesim history with injected sync failures/truncations; transactions carry unique ids (plus deliberate duplicate-content, empty, binary and large ones); after every step: committed multiset <= submitted multiset and submitted(X) = pool(X) + payload(own events of X) for every running node; after the fair suffix exactly-once everywhere; non-trivial: >=20 events and >=3 blocks",
-		Assumptions: []string{"a node that is restarted loses its pending pool (the property speaks of nodes that keep running)", "pool read through the verif hook between lock holds"},
+		Rule:          "one case = one seeded nodesim history with injected sync failures/truncations; transactions carry unique ids (plus deliberate duplicate-content, empty, binary and large ones); after every step: committed multiset <= submitted multiset and submitted(X) = pool(X) + payload(own events of X) for every running node; after the fair suffix exactly-once everywhere; non-trivial: >=20 events and >=3 blocks",
+		Assumptions:   []string{"a node that is restarted loses its pending pool (the property speaks of nodes that keep running)", "pool read through the verif hook between lock holds"},
 		MinNontrivial: 10,
 		Cases: func(tier string, seed int64) []CaseSpec {
 			cs := chainCases(tier, seed+15485863, 48, 640, true)
@@ -336,8 +340,8 @@ func init() {
 	})
 	register(&PropDef{
 		ID: "C06", Level: "exploration", Engine: "nodesim",
-		Rule: "one case = an adversarial nodesim prefix (any shape, truncated/dropped/stale syncs, a minority < n/3 silent from a random point, possibly for good) followed by fair all-pairs cycles among the live validators with the default sync limit; within 60 cycles everybody must be idle, all payload events / transactions / membership requests committed, chains equal; non-trivial: >=20 events and >=3 blocks",
-		Assumptions: []string{"liveness is decided in its bounded form only (60 fair cycles; the evidence reports the cycles actually needed)", "no equivocation", "trailing empty events may stay undetermined"},
+		Rule:          "one case = an adversarial nodesim prefix (any shape, truncated/dropped/stale syncs, a minority < n/3 silent from a random point, possibly for good) followed by fair all-pairs cycles among the live validators with the default sync limit; within 60 cycles everybody must be idle, all payload events / transactions / membership requests committed, chains equal; non-trivial: >=20 events and >=3 blocks",
+		Assumptions:   []string{"liveness is decided in its bounded form only (60 fair cycles; the evidence reports the cycles actually needed)", "no equivocation", "trailing empty events may stay undetermined"},
 		MinNontrivial: 10,
 		Cases: func(tier string, seed int64) []CaseSpec {
 			cs := chainCases(tier, seed+32452843, 64, 800, true)
@@ -384,8 +388,8 @@ func init() {
 	})
 	register(&PropDef{
 		ID: "C10", Level: "exploration", Engine: "nodesim",
-		Rule: "one case = one seeded nodesim history with a membership script (successive/simultaneous joins, leaves, re-join after leave, joins refused by the application); after every step every node's round->validator-set function is compared with a replay of that node's own delivered blocks (accepted receipts, effective at round-received+6), block peer-set hashes and witness membership are checked; non-trivial: >=20 events and >=3 blocks; histories with at least one replayed change are counted separately",
-		Assumptions: []string{"sets compared as sets of public keys; order is judged through the block's peer-set hash against the node's own reported set"},
+		Rule:          "one case = one seeded nodesim history with a membership script (successive/simultaneous joins, leaves, re-join after leave, joins refused by the application); after every step every node's round->validator-set function is compared with a replay of that node's own delivered blocks (accepted receipts, effective at round-received+6), block peer-set hashes and witness membership are checked; non-trivial: >=20 events and >=3 blocks; histories with at least one replayed change are counted separately",
+		Assumptions:   []string{"sets compared as sets of public keys; order is judged through the block's peer-set hash against the node's own reported set"},
 		MinNontrivial: 10,
 		Cases: func(tier string, seed int64) []CaseSpec {
 			cs := chainCases(tier, seed+49979687, 48, 640, true)
@@ -406,8 +410,8 @@ func init() {
 func init() {
 	register(&PropDef{
 		ID: "C13", Level: "exploration", Engine: "nodesim",
-		Rule: "one case = one seeded nodesim history with fast-sync: validators that lose their data and reset from an honest peer's anchor (any serving peer, chained resets), joiners with fast-sync enabled (with and without other-parent for their first event), anchors inside the six-round window of pending joins/leaves; after every step the blocks delivered by reset nodes (from anchor+1) are compared with the canonical chain of the full-history nodes, their round->validator-set function with a replay from the shipped history, and frames of the same round across nodes; non-trivial: at least one successful reset and >=3 blocks; distinct by history",
-		Assumptions: []string{"a reset node that can no longer insert what it receives simply stops delivering (not a violation)", "the resetting validator's own events are known to everybody before it loses its data (no self-fork)"},
+		Rule:          "one case = one seeded nodesim history with fast-sync: validators that lose their data and reset from an honest peer's anchor (any serving peer, chained resets), joiners with fast-sync enabled (with and without other-parent for their first event), anchors inside the six-round window of pending joins/leaves; after every step the blocks delivered by reset nodes (from anchor+1) are compared with the canonical chain of the full-history nodes, their round->validator-set function with a replay from the shipped history, and frames of the same round across nodes; non-trivial: at least one successful reset and >=3 blocks; distinct by history",
+		Assumptions:   []string{"a reset node that can no longer insert what it receives simply stops delivering (not a violation)", "the resetting validator's own events are known to everybody before it loses its data (no self-fork)"},
 		MinNontrivial: 8,
 		Cases: func(tier string, seed int64) []CaseSpec {
 			cs := chainCases(tier, seed+86028121, 48, 640, true)
